@@ -58,7 +58,7 @@ def run(ctx):
     res.extra["sessions_from_tlc"] = len(sessions)
     v = r2.verdict
     res.extra["drift_fetches_differing_from_GetM"] = len(v.get("drift", []))
-    res.assumptions = ["responses with both a tolerated and a foreign Content-Type may be accepted or refused",
+    res.assumptions = ["a response that declares a foreign Content-Type next to a tolerated one is refused (every declared type has to be tolerated)",
                        "servers are unchanged within a session", "budgets 0-4 through jtp.Get directly; client.FetchURL's budget of 20 is exercised by the C02/C09 drivers"]
     for b in bad:
         s = sess[b["sid"]]
